@@ -235,7 +235,8 @@ fn mid<'a, 'e, T: IteTable<'a, BddPtr<'a>> + Default>(b: &'a RobddBuilder<'a, T>
         // an operand is wrong: its construction history is the finding; nothing built on it is meaningful
         return (s.rep, s.digests);
     }
-    let mut core: Vec<usize> = (0..ops.len()).filter(|&i| ops[i].1 == 0).collect();
+    // quick: the core operands; thorough: every operand of the families (n = 8) resp. the core and every second other (n = 10)
+    let mut core: Vec<usize> = (0..ops.len()).filter(|&i| ops[i].1 == 0 || (ctx.tier == Tier::Thorough && (n <= 8 || i % 2 == 0))).collect();
     if cfg.issue % 2 == 1 {
         core.reverse();
     }
